@@ -43,3 +43,4 @@ open Lungo.C01
 #print axioms Lungo.C01.handles_distinct
 #print axioms Lungo.C01.handles_distinct_step
 #print axioms Lungo.C01.api_refines
+#print axioms Lungo.C01.okDB_step
